@@ -29,7 +29,7 @@ st = subprocess.run(["git", "-C", TREE, "status", "--porcelain"], capture_output
 if st:
     print("refusing: /repo is not clean:\n" + st)
     sys.exit(2)
-out_path = os.path.join(root, "RESULTS.json")
+out_path = os.environ.get("SEED_RESULTS", os.path.join(root, "RESULTS.json"))     # (parallel runs write separate files, merged afterwards)
 results = json.load(open(out_path)) if os.path.exists(out_path) else {}
 for name in names:
     pid = name[:3]
